@@ -26,16 +26,17 @@ from pyvc.lib.stdlib import BytesOf, FileModel, OpaqueValue, PathModel
 from props._contracts import polygon_contract_scenarios, scn_polygon_contract  # noqa: F401
 
 PROPERTY = 'C15'
-CONFIGS = [('CFGrid1D', {}), ('CFGrid2D', {}), ('ShocStandard', {}), ('UGrid', {'edges': 'none'})]
+CONFIGS = [('CFGrid1D', {}), ('CFGrid2D', {}), ('ShocStandard', {}), ('UGrid', {'edges': 'none'}),
+           ('ShocSimple', {'bounds': True}), ('CFGrid2D', {'bounds': 'coords'}), ('UGrid', {'edges': 'both'}), ('CFGrid1D', {'bounds': True})]      # the last four: thorough tier
 MOD = 'emsarray.operations.geometry'
 
 
 def scenarios(tier):
     out = []
-    for ci, cfg in enumerate(CONFIGS):
-        out.append({'name': f'to_geojson[{cfg[0]}]', 'fn': 'scn_geojson', 'kwargs': {'ci': ci}})
-        out.append({'name': f'write_shapefile[{cfg[0]}]', 'fn': 'scn_shapefile', 'kwargs': {'ci': ci}})
-        out.append({'name': f'write_wkt / write_wkb[{cfg[0]}]', 'fn': 'scn_wk', 'kwargs': {'ci': ci}})
+    for ci, cfg in enumerate(CONFIGS if tier == 'thorough' else CONFIGS[:4]):
+        out.append({'name': f'to_geojson[{cfg[0]} {cfg[1]}]', 'fn': 'scn_geojson', 'kwargs': {'ci': ci}})
+        out.append({'name': f'write_shapefile[{cfg[0]} {cfg[1]}]', 'fn': 'scn_shapefile', 'kwargs': {'ci': ci}})
+        out.append({'name': f'write_wkt / write_wkb[{cfg[0]} {cfg[1]}]', 'fn': 'scn_wk', 'kwargs': {'ci': ci}})
     out.append({'name': 'write_geojson streams to_geojson into the file', 'fn': 'scn_write_geojson', 'kwargs': {}})
     out.append({'name': 'write_shapefile with separate file arguments', 'fn': 'scn_shapefile_parts', 'kwargs': {}})
     out += polygon_contract_scenarios()
@@ -251,6 +252,8 @@ def scn_wk(c, ci):
             # lose the last place of about one double in ten; from 20 decimal places on GEOS writes the shortest exact representation
             c.check('write_wkt: coordinates are written exactly (rounding_precision >= 20), not rounded', isinstance(rp, int) and rp >= 20)
             c.check('write_wkt: no trimming / dimension options that change coordinates', s.kw.get('output_dimension', 3) >= 2)
+        if fmt == 'wkb':
+            c.check('write_wkb: no option that changes or drops coordinates (plain binary, all dimensions)', not s.a and set(s.kw) <= {'include_srid', 'byte_order', 'flavor'} )
         _members_are_cells_in_order(c, s.geom.members, polys, f'{fname} members', lambda m: None if _poly_of(m) is None else _poly_of(m).n)
 
 
